@@ -36,7 +36,7 @@ BUDGET = {
 
 @st.composite
 def _planted(draw, tier):
-    desc = draw(gen.wellformed(max_targets=6, max_files=9, spellings=(0, 1, 2, 4, 5, 7), shapes=(0, 2, 4, 5),
+    desc = draw(gen.wellformed(max_targets=6, max_files=9, spellings=(0, 1, 2, 4, 5, 7, 8, 9), shapes=(0, 2, 4, 5),
                                allow_missing_outputs=True, min_targets=2))
     kind = draw(st.sampled_from(["cycle", "selfloop", "dup", "missing"]))
     ts = desc["targets"]
@@ -57,7 +57,7 @@ def _planted(draw, tier):
         owners = [(t, p) for t in ts for p in model.T(t).outset]
         if owners:
             t, p = draw(st.sampled_from(owners))
-            ts.append({"name": "dupper", "inputs": [], "outputs": [gen.spell(p, draw(st.sampled_from([0, 1, 2, 3, 4, 5, 7])))],
+            ts.append({"name": "dupper", "inputs": [], "outputs": [gen.spell(p, draw(st.sampled_from([0, 1, 2, 3, 4, 5, 7, 8, 9])))],
                        "spec": "true\n", "wd": None})
         else:
             ts.append({"name": "d1", "inputs": [], "outputs": ["dd/x"], "spec": "true\n", "wd": None})
@@ -121,7 +121,7 @@ def hash_name(name, k):
 
 def strategy(tier):
     big = tier == "thorough"
-    free = gen.freeform(max_targets=9 if big else 6, spellings=(0, 1, 2, 4, 7)).map(lambda d: {"kind": "free", "desc": d})
+    free = gen.freeform(max_targets=9 if big else 6, spellings=(0, 1, 2, 4, 7, 8, 9)).map(lambda d: {"kind": "free", "desc": d})
     parts = [free] * 6 + [_planted(tier)] * 5
 
     @st.composite
